@@ -539,7 +539,7 @@ def replay(case):
 
 
 MANIFEST = {
-    "text": "Exploration by runtime monitoring: read-only entry points are enumerated by introspection (properties, get_*/is_*/to_*/as_*/show_* callable without arguments) on the document, its parts, the body, tables, rows, cells, paragraphs and the first element of each family, plus an explicit list with arguments (exports, searches, counting replace, area reads aimed at repeated runs); on every template, sample (bounded tables), decorated package and generated document they are called in random order, each twice, while a purity monitor compares a byte-for-byte digest of every in-memory part before and after each call and the two answers. Held = no call changed the document or answered differently on what was observed.",
+    "text": "Exploration by runtime monitoring: read-only entry points are enumerated by introspection (properties, get_*/is_*/to_*/as_*/show_* callable without arguments) on the document, its parts, the body, tables, rows, cells, paragraphs and the first element of each family, plus an explicit list with arguments (exports, searches, counting replace, area reads aimed at repeated runs); on every template, sample (bounded tables), decorated package and generated document they are called in random order, each twice, while a purity monitor compares a byte-for-byte digest of every in-memory part before and after each call and the two answers. Held = no call changed the document or answered differently on what was observed. Also: pretty / plain serialisation of parts nobody navigated yet, before and after their root is first looked at.",
     "note": "Trusted: the naming convention that identifies read-only entry points; vf/doclab.memory_state as the digest. Tables declaring more than 20000 cells only run non-expanding entry points (counted as skipped_big).",
     "technique": "runtime monitoring: purity monitor (byte digest of all in-memory parts) around every read-only call + repeatability of answers",
 }
